@@ -2,7 +2,7 @@
    restatement of Cfg/CfgOps.v; both are run against the implementation by Cfg/C15Check.v) *)
 From Coq Require Import ZArith List.
 From Falcon Require Import Graph.NMap Graph.Graph Graph.GraphInv.
-From Falcon Require Import Base.Res IL.Const IL.Expr IL.Func Cfg.CfgOps Cfg.SOps Cfg.SProofs Cfg.Lang Cfg.MergeProofs Cfg.AppendProofs Cfg.AppendLang Cfg.EProofs.
+From Falcon Require Import Base.Res IL.Const IL.Expr IL.Func Cfg.CfgOps Cfg.SOps Cfg.SProofs Cfg.Lang Cfg.MergeProofs Cfg.AppendProofs Cfg.AppendLang Cfg.EProofs Cfg.Refine.
 Import ListNotations.
 Local Open Scope Z_scope.
 
@@ -115,6 +115,29 @@ Theorem adjacency_agrees : forall ops i, let g := eg (fold_left e_run ops ecfg_n
   (exists p, predecessor_indices g i = Ok p /\ forall h, In h p <-> has_edge g h i = true).
 Proof. exact EProofs.adjacency_agrees. Qed.
 Print Assumptions adjacency_agrees.
+
+(* 5. the four-map model refines the static model: for histories with non-negative (usize) arguments the
+      static view after the history on the four-map model is the state of the static model after the same
+      history; hence theorem 1 and the merge theorem hold for the four-map model too *)
+Theorem history_refines : forall ops, Forall eop_args_ok ops ->
+  to_static (fold_left e_run ops ecfg_new) = fold_left s_run (map sop_of ops) s_new.
+Proof. exact Refine.history_refines. Qed.
+Print Assumptions history_refines.
+
+Theorem e_run_refines : forall c o, erel c -> eop_args_ok o ->
+  to_static (e_run c o) = s_run (to_static c) (sop_of o) /\ erel (e_run c o).
+Proof. exact Refine.e_run_refines. Qed.
+Print Assumptions e_run_refines.
+
+Theorem fourmap_cfg_inv : forall ops, Forall eop_args_ok ops -> Forall eop_other_ok ops ->
+  cfg_inv (to_static (fold_left e_run ops ecfg_new)) = true.
+Proof. exact Refine.fourmap_cfg_inv. Qed.
+Print Assumptions fourmap_cfg_inv.
+
+Theorem fourmap_merge_lang : forall c, erel c -> sinv (to_static c) ->
+  snd (merge c) = Ok tt /\ forall w, lang (to_static (fst (merge c))) w <-> lang (to_static c) w.
+Proof. exact Refine.fourmap_merge_lang. Qed.
+Print Assumptions fourmap_merge_lang.
 
 (* the hypotheses are satisfiable: four blocks, a cycle 0 -> 1 -> 3 -> 0, a self-loop on 1,
    conditional edges, an empty block (2), a removed instruction *)
